@@ -22,6 +22,7 @@ META = {
     "assumptions": [],
 }
 META["claim"] += " " + 'Also: the same WebSocket object closed (five different ways) and connected again on a new transport still answers every ping.'
+META["claim"] += " " + 'Round 3b: floods of 1030-5000 pings/pongs without a data frame in between (every ping answered); about a third of the cases with trace logging on.'
 
 MODES = [("recv", False), ("recv_data", False), ("recv_data", True), ("recv_data_frame", False), ("recv_data_frame", True)]
 
